@@ -190,13 +190,13 @@ private def exSt2 : BiCGStabL.St ℚ :=
 private def exPrm2 : BiCGStabL.Params ℚ :=
   { maxiter := 4, tol := 0, abstol := 0, nsSearch := false, L := 2, delta := 0, convex := true, pside := .right }
 
-private theorem exR2_sizes : ∀ i, i ≤ exPrm2.L → (exSt2.w.R.get i).size = 3 := by
+theorem exR2_sizes : ∀ i, i ≤ exPrm2.L → (exSt2.w.R.get i).size = 3 := by
   intro i hi
   have : i = 0 ∨ i = 1 ∨ i = 2 := by have : exPrm2.L = 2 := rfl; omega
   rcases this with rfl | rfl | rfl <;> rfl
-private theorem exR2_roots : QRModel.ExactRoots Amgcl.rsqrt exPrm2.L exPrm2.L exPrm2.L 1
+theorem exR2_roots : QRModel.ExactRoots Amgcl.rsqrt exPrm2.L exPrm2.L exPrm2.L 1
     (flatOf exPrm2.L 1 (gram stdIp exPrm2.L exSt2.w.R exSt2.w.MZa)) #[] := by decide +kernel
-private theorem exR2_rank : FullRank 3 exPrm2.L exSt2.w.R := by
+theorem exR2_rank : FullRank 3 exPrm2.L exSt2.w.R := by
   intro c h j hj
   have e0 := h 0 (by omega)
   have e1 := h 1 (by omega)
@@ -227,11 +227,11 @@ private def exPrm1 : BiCGStabL.Params ℚ :=
   { maxiter := 4, tol := 0, abstol := 0, nsSearch := false, L := 1, delta := 0, convex := false, pside := .right }
 private def exA1 : CRS ℚ := ⟨2, #[[(0, 1)], [(1, 1)]]⟩
 
-private theorem exR1_sizes : ∀ i, i ≤ exPrm1.L → (exSt1.w.R.get i).size = 2 := by
+theorem exR1_sizes : ∀ i, i ≤ exPrm1.L → (exSt1.w.R.get i).size = 2 := by
   intro i hi
   have : i = 0 ∨ i = 1 := by have : exPrm1.L = 1 := rfl; omega
   rcases this with rfl | rfl <;> rfl
-private theorem exR1_rank : FullRank 2 exPrm1.L exSt1.w.R := by
+theorem exR1_rank : FullRank 2 exPrm1.L exSt1.w.R := by
   intro c h j hj
   have e0 := h 0 (by omega)
   have hL : exPrm1.L = 1 := rfl
@@ -242,7 +242,7 @@ private theorem exR1_rank : FullRank 2 exPrm1.L exSt1.w.R := by
   have : j = 0 := by omega
   subst this; exact e0
 
-private theorem exPoly1 : ∃ st', polyPart exPrm1 stdIp Amgcl.rsqrt (7/10) exA1 id 5 exSt1 = .ok st' ∧ st'.zeta = 4 := by
+theorem exPoly1 : ∃ st', polyPart exPrm1 stdIp Amgcl.rsqrt (7/10) exA1 id 5 exSt1 = .ok st' ∧ st'.zeta = 4 := by
   have h : (match polyPart exPrm1 stdIp Amgcl.rsqrt (7/10) exA1 id 5 exSt1 with
       | .ok s => decide (s.zeta = 4) | _ => false) = true := by decide +kernel
   split at h
